@@ -225,6 +225,8 @@ def same_answer(a, b):
         return a.shape == b.shape and bool(np.allclose(a, b, rtol=1e-12, atol=1e-12, equal_nan=True)) if a.dtype.kind in "fciub" and b.dtype.kind in "fciub" else bool(np.array_equal(a, b))
     try:
         if isinstance(a, float) and isinstance(b, float):
+            if a == b:                       # also +-inf
+                return True
             return (math.isnan(a) and math.isnan(b)) or abs(a - b) <= 1e-12 * max(1, abs(a))
         return bool(a == b)
     except Exception:  # noqa: BLE001
@@ -297,7 +299,7 @@ def histories(ctx, nhist, length):
 
 
 def correspondence(ctx):
-    histories(ctx, ctx.budget(120, 2000), ctx.budget(30, 45))
+    histories(ctx, ctx.budget(120, 700), ctx.budget(30, 40))
 
 
 def replay(ctx, rec):
